@@ -679,6 +679,8 @@ partial def runHsCase (lines : Array String) : Array String := Id.run do
     | none => []
   let mut hcfg : List String := []
   let mut cfgToks : Option (List String) := none
+  let mut sockOps : Array Mon.ImplOp := #[]
+  let mut allDelivered : Bytes := []
   let mut stage : HsStage := .fresh
   let mut trans : Transport := { rd := [], wr := [], fl := [] }
   let mut i := 0
@@ -695,18 +697,30 @@ partial def runHsCase (lines : Array String) : Array String := Id.run do
       let mut uriview : Option (List String) := none
       let mut implReqHeaders : Option String := none
       let mut echo : Array String := #[]
+      let mut iop : Mon.ImplOp := { body := rest.filter (fun t => !t.startsWith "m=") }
       while j < lines.size do
         let t := words lines[j]!
         match t with
-        | "io" :: evs => ev := parseIo evs; j := j + 1
+        | "io" :: evs =>
+          ev := parseIo evs
+          iop := { iop with io := evs.filter (· != "-") }
+          for e in ev.rd do
+            match e with
+            | .data bs => allDelivered := allDelivered ++ bs
+            | _ => pure ()
+          j := j + 1
         | "parsed" :: _ => echo := echo.push lines[j]!; j := j + 1
         | "uriview" :: r => uriview := some r; echo := echo.push lines[j]!; j := j + 1
         | "reqheaders" :: r => implReqHeaders := r.head?; j := j + 1
-        | "res" :: _ => j := j + 1
-        | "wire" :: _ => j := j + 1
+        | "res" :: r => iop := { iop with res := r }; j := j + 1
+        | "wire" :: w :: _ => iop := { iop with wire := unhex w }; j := j + 1
         | "can" :: _ => j := j + 1
         | _ => break
       i := j
+      if iop.body.head? == some "read" || iop.body.head? == some "flush" then
+        match stage with
+        | .socket _ => sockOps := sockOps.push iop
+        | _ => pure ()
       let body := rest.filter (fun t => !t.startsWith "m=")
       let masks := parseMasks toks
       let t0 : Transport := { trans with rd := ev.rd, wr := ev.wr, fl := ev.fl, log := [], exhausted := false,
@@ -810,6 +824,19 @@ partial def runHsCase (lines : Array String) : Array String := Id.run do
         i := i + 1
       else if tag == "end" then
         for m in monHs isServer lines ((kv hcfg "callback").getD "none") statusLine do out := out.push m
+        -- C16: frame bytes that arrived with the response head are the first thing read from the socket
+        if !isServer && sockOps.size > 0 then
+          let headSize := (lines.toList.findSome? fun l =>
+            match words l with
+            | "parsed" :: _ :: "complete" :: r => (kv r "size").bind String.toNat?
+            | _ => none).getD 0
+          let cfg : Config := match cfgToks with
+            | some ts => (parseCfg ts).2.1
+            | none => {}
+          let ic : Mon.ImplCase := { role := .client, cfg := cfg, pre := some [], peer := allDelivered.drop headSize, ops := sockOps }
+          match Mon.specVerdict ic with
+          | some v => out := out.push s!"mon C16 FAIL tail-{v}"
+          | none => pure ()
         out := out.push line
         i := i + 1
       else
